@@ -5,7 +5,8 @@
    argument (Schwartz-Zippel over the challenge space) is NOT proved here; those verifiers are exercised by the
    wrong-witness oracle of the harness only. *)
 From Coq Require Import ZArith Znumtheory List Bool Lia.
-From LT Require Import Zbase SoundModel SoundLemmas.
+From Coq Require Import NArith.
+From LT Require Import Zbase SamplerModel ShuffleModel SoundModel SoundLemmas SoundCutLemmas.
 Import ListNotations.
 Local Open Scope Z_scope.
 
@@ -51,6 +52,48 @@ Theorem C04_keyint_extract_sound : forall p q : Z, 1 < p -> prime q ->
 Proof. exact keyint_extract_sound. Qed.
 Print Assumptions C04_keyint_extract_sound.
 
+(* OR proof (OR_Verify recomputes t_i = y_i^{c_i} g_i^{r_i}; the overall challenge is (c_1 + c_2) mod q): two accepting
+   transcripts with the same commitments and different overall challenge give a witness for one of the two branches *)
+Theorem C04_or_extract_exists : forall p q : Z, 1 < p -> prime q ->
+  forall g1 y1 g2 y2 t1 t2 c1 c2 r1 r2 c1' c2' r1' r2',
+  powm g1 q p = 1 -> powm y1 q p = 1 -> powm g2 q p = 1 -> powm y2 q p = 1 ->
+  0 <= c1 -> 0 <= c2 -> 0 <= r1 -> 0 <= r2 -> 0 <= c1' -> 0 <= c2' -> 0 <= r1' -> 0 <= r2' ->
+  (powm y1 c1 p * powm g1 r1 p) mod p = t1 -> (powm y1 c1' p * powm g1 r1' p) mod p = t1 ->
+  (powm y2 c2 p * powm g2 r2 p) mod p = t2 -> (powm y2 c2' p * powm g2 r2' p) mod p = t2 ->
+  (c1 + c2) mod q <> (c1' + c2') mod q ->
+  (exists x, 0 <= x < q /\ powm g1 x p = y1 mod p) \/ (exists x, 0 <= x < q /\ powm g2 x p = y2 mod p).
+Proof. exact or_extract_exists. Qed.
+Print Assumptions C04_or_extract_exists.
+
+(* cut and choose, one round, VTMF encoding (real mix of ShuffleModel): accepting answers to BOTH challenges for one
+   commitment show that every card of s2 designated by the first answer is a re-masking, with an exponent in [0,q), of
+   the card of s designated by the second answer.  _partial: the per-card statement is not yet packaged as
+   "s2 = mix s gamma" for the composed bijection (needs the inverse stack secret). *)
+Theorem C04_cutchoose_extract_partial : forall (p q g h : Z) (s s2 t : list (Z * Z)) (ss0 ss1 : list (N * Z)),
+  1 < p -> prime q -> powm g q p = 1 -> powm h q p = 1 ->
+  (forall j x r, nthN ss0 j = Some (x, r) -> 0 <= r) -> (forall j x r, nthN ss1 j = Some (x, r) -> 0 <= r) ->
+  length s = length s2 -> (length s <= max_cards)%nat ->
+  vmix p g h s2 ss1 = Ret t -> vmix p g h s ss0 = Ret t ->
+  forall i, (i < length s)%nat ->
+  exists a b c2 c d, (exists r0, nth_error ss1 i = Some (a, r0)) /\ nthN s2 a = Some c2 /\
+                     (exists r0, nth_error ss0 i = Some (b, r0)) /\ nthN s b = Some c /\ 0 <= d < q /\
+                     (fst c2 mod p, snd c2 mod p) = vmask p g h c d.
+Proof. exact cutchoose_extract_partial. Qed.
+Print Assumptions C04_cutchoose_extract_partial.
+
+(* ... and when the first answer's index component is a permutation of 0..n-1 (enforced by TMCG_StackSecret::import), every
+   card of the shuffled stack is such a re-masking of some card of the input stack *)
+Theorem C04_cutchoose_every_card_partial : forall (p q g h : Z) (s s2 t : list (Z * Z)) (ss0 ss1 : list (N * Z)),
+  1 < p -> prime q -> powm g q p = 1 -> powm h q p = 1 ->
+  (forall j x r, nthN ss0 j = Some (x, r) -> 0 <= r) -> (forall j x r, nthN ss1 j = Some (x, r) -> 0 <= r) ->
+  length s = length s2 -> (length s <= max_cards)%nat ->
+  Permutation.Permutation (map fst ss1) (iota (length s)) ->
+  vmix p g h s2 ss1 = Ret t -> vmix p g h s ss0 = Ret t ->
+  forall a, (a < N.of_nat (length s))%N ->
+  exists b c2 c d, nthN s2 a = Some c2 /\ nthN s b = Some c /\ 0 <= d < q /\ (fst c2 mod p, snd c2 mod p) = vmask p g h c d.
+Proof. exact cutchoose_every_card_partial. Qed.
+Print Assumptions C04_cutchoose_every_card_partial.
+
 (* cut and choose over an abstract mask: for a false statement (s <> s2) the prover who prepares for one guessed
    challenge string is accepted iff the verifier's coins equal the guess -- for every kappa.
    Premises: the commitment (hash of the re-mixed stack) has no collision on the compared stacks, and masking with one
@@ -86,4 +129,8 @@ Example C04_nonvacuous_schnorr :
   (powm 2 9 23 * powm 8 6 23) mod 23 = 9 /\ (powm 2 3 23 * powm 8 8 23) mod 23 = 9 /\ ext_exp 11 9 3 6 8 = Some 3.
 Proof. vm_compute. repeat split; reflexivity. Qed.
 Example C04_nonvacuous_count : accepting_count [true; false; true; true] = 1%nat /\ length (all_coins 4) = 16%nat.
+Proof. vm_compute. split; reflexivity. Qed.
+(* the hypotheses of the partial extractor are satisfiable: p = 23, q = 11, g = 2, h = 3, two cards, identity secrets *)
+Example C04_nonvacuous_cutchoose :
+  vmix 23 2 3 [(4, 9); (8, 6)] [(0%N, 1); (1%N, 2)] = Ret [(8, 4); (9, 8)] /\ vmix 23 2 3 [(8, 4); (9, 8)] [(0%N, 0); (1%N, 0)] = Ret [(8, 4); (9, 8)].
 Proof. vm_compute. split; reflexivity. Qed.
